@@ -413,6 +413,102 @@ def correspondence(ck, case, c):
             return
 
 
+# ---------------------------------------------------------------------------------------------- parsed_sem (bench): dump + denotation
+def canonical_dump(c):
+    """`circ.dump_net` without blanks (the answer format of the driver command `netof`)"""
+    def pins(l): return ','.join('-' if x is None else str(x.index) for x in l)
+    nodes = '|'.join(f'{pct(n.kind)}:{pins(n.ins)}:{pins(n.outs)}' for n in c.nodes)
+    lines = '|'.join(f'{l.driver.index}.{l.driver_pin}.{l.reader.index}.{l.reader_pin}' for l in c.lines)
+    io = ','.join(str(n.index) for n in c.io_nodes)
+    return f'{nodes};{lines};{io}'
+
+
+def parsed_sem_dump(ck, case, c):
+    """(a) + guard: `benchNet stmts` (driver `netof b`) == canonical dump of the REAL parsed circuit, character by character;
+    the real parser raises <=> `benchOKB` is false <=> the model sets `err`.  Returns (names, dump, closed) when both built."""
+    toks = enc_bench(case['ast'])
+    try:
+        first = common.run_driver([f'netof b {toks}', f'benchsem {toks} ~'])
+        parts = first[1].split(' ')
+        if len(parts) != 4 or not parts[2].startswith('names='):
+            ck.broken_tie('parsed_sem (bench): driver answer', first[1][:200], inp=_slim(case)); return None
+        okb, closed = parts[0] == 'ok=1', parts[1] == 'closed=1'
+        names = [] if parts[2] == 'names=~' else parts[2][6:].split(',')
+    except Exception as ex:
+        ck.broken_tie('parsed_sem (bench): driver', f'{type(ex).__name__}: {ex}'[:300], inp=_slim(case)); return None
+    ck.hist[f'parsed-sem:bench:benchOKB={int(okb)},benchClosedB={int(closed)}'] += 1
+    st, _, dump = first[0].partition(' ')
+    if c is None:
+        if st == 'ok' or okb:
+            ck.broken_tie('parsed_sem (bench): guard', f'real parser raised, model answered {st}, benchOKB={okb}', inp=_slim(case))
+        return None
+    if st != 'ok' or not okb:
+        ck.broken_tie('parsed_sem (bench): guard', f'real parser built a circuit, model answered {st}, benchOKB={okb}', inp=_slim(case)); return None
+    real = canonical_dump(c)
+    if dump != real:
+        k = next((i for i, (x, y) in enumerate(zip(dump, real)) if x != y), min(len(dump), len(real)))
+        ck.broken_tie('parsed_sem (bench): canonical dump', f'benchNet differs from dump_net of the real circuit at char {k}: '
+                      f'model {dump[max(0, k - 20):k + 30]!r} real {real[max(0, k - 20):k + 30]!r}', inp=_slim(case)); return None
+    ck.hist['parsed-sem:bench:dump-equal'] += 1
+    return names, dump, closed
+
+
+def parsed_sem_bench(ck, case, c):
+    """tie of the `parsed_sem` theorems (Props/C11.lean, section ParsedSem) for one generated bench case:
+    (a) `parsed_sem_dump`;
+    (b) hypotheses: `benchOKB`, `benchClosedB` evaluated by the driver (tags), and — with the real topological order — the
+        hypotheses `wfB`, `orderOKB`, `forksOKB`, `linesDrivenB` of `bench_end_to_end` on the model's net;
+    (c) denotation: the model `sigma` (driver `benchsem`: `benchEval`, accepted by `benchModelB`) observed at the output ports and
+        flip-flop data pins == the generator's own evaluation of the netlist it rendered, on sampled assignments."""
+    r = parsed_sem_dump(ck, case, c)
+    if r is None: return
+    names, dump, closed = r
+    toks = enc_bench(case['ast'])
+    nl = case['nl']
+    pis, ffs, pos = nl['pi'], gen.ff_insts(nl), nl['po']
+    rows = stim_rows(len(pis) + len(ffs), case.get('seed', 0))
+    ncol = rows.shape[1]
+    cols = sorted(set([0, ncol - 1] + [ck.rng.randrange(ncol) for _ in range(14)]))
+    sub = rows[:, cols]
+    # hypotheses of bench_end_to_end on the model net with the real topological order
+    try:
+        order = ','.join(str(n.index) for n in c.topological_order())
+        cert = common.run_driver([f'net {dump}', f'netcert {order}', f'netspeccert {order}'])
+        hyp = cert[1] == 'wf=true order=true' and cert[2] == 'forks=true lines=true'
+        ck.hist[f'parsed-sem:bench:e2e-hyp:{"ok" if hyp else "outside"}'] += 1
+        if not hyp: ck.hist[f'parsed-sem:bench:e2e-hyp-failed:{cert[1]} {cert[2]}'] += 1
+    except Exception as ex:
+        ck.hist['parsed-sem:bench:e2e-hyp:error'] += 1
+    # denotation on sampled assignments
+    m, fm = case['bench_names'], case['bench_ffs']
+    try:
+        ipos = [names.index('f:' + pct(m[b])) for b in pis] + [names.index('c:' + pct(fm[f])) for f in ffs]
+        opos = [names.index('f:' + pct(m[b])) for b in pos] + [names.index('c:' + pct(fm[f])) for f in ffs]
+    except ValueError as ex:
+        ck.broken_tie('parsed_sem (bench): interface positions', f'{ex} (s_nodes names of the model: {names})', inp=_slim(case)); return
+    reqs = []
+    for j in range(sub.shape[1]):
+        a = ['0'] * len(names)
+        for k, p in enumerate(ipos): a[p] = str(int(sub[k, j]))
+        reqs.append(''.join(a))
+    ans = common.run_driver([f"benchsem {toks} {'/'.join(reqs)}"])[0].split(' ')
+    got = ans[3].split('/') if len(ans) == 4 else []
+    exp = truth_table(nl, sub)
+    if len(got) != sub.shape[1]:
+        ck.broken_tie('parsed_sem (bench): driver answer', ' '.join(ans)[:200], inp=_slim(case)); return
+    for j, g in enumerate(got):
+        if g.endswith('!'):
+            ck.broken_tie('parsed_sem (bench): model check', f'benchModelB rejects the environment benchEval computes (assignment {reqs[j]})',
+                          inp=_slim(case)); return
+        obs = [g[p] for p in opos]
+        want = [str(int(exp[k, j])) for k in range(len(opos))]
+        if obs != want:
+            ck.broken_tie('parsed_sem (bench): denotation', f'model sigma observed at outputs/flip-flop data {obs} != generator {want} '
+                          f'(assignment {reqs[j]} over {names})', inp=_slim(case)); return
+    ck.hist['parsed-sem:bench:denotation-rows'] += sub.shape[1]
+    ck.hist['parsed-sem:bench:covered'] += 1
+
+
 def _slim(case):
     return {k: v for k, v in case.items() if not k.startswith('_')}
 
@@ -713,6 +809,7 @@ def run_netlist(ck, nl, cases, notes):
         except Exception as ex:
             c = None
         correspondence(ck, case, c)
+        if case['fmt'] == 'bench': parsed_sem_bench(ck, case, c)
         if case['fmt'] in TEXT_FMTS: text_stream(ck, case, 2 if case['fmt'] == 'verilog' else 3, real=(c,))
         try:
             ok, obs, exp = eval_case(case)
@@ -895,6 +992,7 @@ def odd_stream(ck, n, notes):
             except Exception as ex:
                 c = None; status = 'raises'
             correspondence(ck, odd, c)
+            if odd['fmt'] == 'bench': parsed_sem_dump(ck, odd, c)
             if odd['fmt'] in TEXT_FMTS: text_stream(ck, odd, 1, real=(c,))
             ck.case(key=('odd', odd['fmt'], odd['text']), nontrivial=False, tag=[f'odd:{label}:{status}', 'stream:odd'])
             done += 1
